@@ -120,6 +120,27 @@ def infoFields (m : Meta) : Except PyErr (List (String × Str)) :=
   | .error e, _ => .error e
   | _, .error e => .error e
 
+/-! ## XMP packet (PDF/A, PDF/UA) -/
+
+/-- `generate_rdf_metadata(metadata, variant, version, conformance)`: the `rdf:Description` blocks in
+order, each as (qualified name, values) — an attribute (`@` prefix) has one value, `dc:creator` one
+`rdf:li` per author, the others a single `rdf:li` or their text.  The W3C dates are written as they
+are (XMP uses the W3C format). -/
+def rdfFields (variant : String) (version : String) (conformance : Option String) (producer : Str) (m : Meta) :
+    List (String × List Str) :=
+  [("@pdf" ++ variant ++ "id:part", [version.toList])] ++
+  (match conformance with
+   | some c => if c != "" then [("@pdf" ++ variant ++ "id:conformance", [c.toList])] else []
+   | none => []) ++
+  [("@pdf:Producer", [producer])] ++
+  (match nonEmpty m.title with | some t => [("dc:title", [t])] | none => []) ++
+  (if m.authors.isEmpty then [] else [("dc:creator", m.authors)]) ++
+  (match nonEmpty m.description with | some d => [("dc:subject", [d])] | none => []) ++
+  (if m.keywords.isEmpty then [] else [("pdf:Keywords", [joinComma m.keywords])]) ++
+  (match nonEmpty m.generator with | some g => [("xmp:CreatorTool", [g])] | none => []) ++
+  (match nonEmpty m.created with | some c => [("xmp:CreateDate", [c])] | none => []) ++
+  (match nonEmpty m.modified with | some c => [("xmp:ModifyDate", [c])] | none => [])
+
 /-! ## one bookmark per element -/
 
 /-- Which checklist a box belongs to (`element_tag.endswith('::before')` / `'::after'`). -/
